@@ -151,6 +151,52 @@ def check(model: Model, run: Run) -> None:
     if n_pi < 3:
         run.cannot('only %d index() implementations read the path information' % n_pi)
 
+    # ------------------------------------------------------------------ R1c what is kept beside the packed bytes is in the index
+    run.rule('C15.R1c', 'routes that differ never share an index: a field that __eq__ compares and that the object keeps BESIDE its packed bytes (assigned in __init__, not computed from _packed) is part of index()', floor=10)
+
+    def _eq_fields(f: FuncInfo) -> set[str]:
+        out = set()
+        for n_ in walk_no_nested(f.node):
+            if isinstance(n_, ast.Compare):
+                for side in [n_.left] + n_.comparators:
+                    for a in ast.walk(side):
+                        if isinstance(a, ast.Attribute) and dotted(a.value) == 'self':
+                            out.add(a.attr)
+        return out - {'afi', 'safi', 'CODE', 'ARCHTYPE', 'NAME', '__class__', '_packed'}
+
+    def _stored(cq_: str, attr: str) -> bool:
+        for c_ in model.classes[cq_].mro or [cq_]:
+            cc = model.classes.get(c_)
+            if cc is None:
+                continue
+            if attr in cc.methods:
+                return False  # a property / method: computed, not kept
+            init = cc.methods.get('__init__')
+            if init is not None:
+                for n_ in walk_no_nested(init.node):
+                    if isinstance(n_, (ast.Assign, ast.AnnAssign)):
+                        tg = n_.targets[0] if isinstance(n_, ast.Assign) else n_.target
+                        if dotted(tg) == 'self.' + attr:
+                            return True
+        return False
+
+    n1c = 0
+    for cq in classes:
+        ci = model.classes[cq]
+        if not ({'__eq__', 'index'} & set(ci.methods)):
+            continue
+        eq = model.effective(cq, '__eq__')
+        ix = model.effective(cq, 'index')
+        if eq is None or ix is None or _eq_basis(model, eq) == 'index':
+            continue
+        n1c += 1
+        kept = sorted(a for a in _eq_fields(eq) if _stored(cq, a))
+        itxt = norm(ix.node)
+        missing = [a for a in kept if ('self.' + a) not in itxt and ("'%s'" % a) not in itxt]
+        run.check(not missing, cq, 'index() (%s) covers the fields kept beside the packed bytes %s' % (short(ix.qualname), kept), ix.loc(), 'two routes that differ only in %s compare different but have the same index(): the RIB tables, keyed by the index, keep one of them' % ', '.join(missing))
+    if n1c < 10:
+        run.cannot('only %d NLRI classes with a field-wise __eq__ examined' % n1c)
+
     # ------------------------------------------------------------------ R5 AS_PATH survives the 2-byte detour (shared with C01.R3)
     run.rule('C15.R5', 'AS_PATH round trip through a 2-byte session: AS_TRANS substitution flagged over the whole path and AS4_PATH carrying the original path (shared with C01.R3)', floor=4)
     from .C01 import _r3_aspath
